@@ -367,6 +367,23 @@ pub fn limit_ladders(thorough: bool) -> Vec<String> {
             }
         }
     }
+    // every kind of statement placed exactly at block levels limit-2 .. limit+2
+    const STMTS: &[&str] = &[
+        "f()", "x = 1", "x.y = 1", "x:m()", "x, y = 1, 2", "local a = 1", "local a <const> = 1", "local function g() end", "function g() end",
+        "if x then end", "if x then else end", "while x do end", "for i = 1, 2 do end", "for k, v in p do end", "repeat until x", "return", "return f()",
+        "break", "goto l", "::l::", "do end", ";", "x += 1", "global g", "global function g() end", "f 'str'", "f {}", "(f)()", "continue", "const c = 1",
+        "-- c", "---@type A\nlocal z", "x = {}", "x = (1)", "x = function() end", "x = -1", "x = a .. b", "x = a and b or c", "f(1, 2)", "a.b.c()", "x = a[1]",
+        "local = 1", "x = ", "f(", "if x then", "local function", "for", "return return",
+    ];
+    const WRAPS: &[(&str, &str)] = &[("do\n", "\nend"), ("if x then\n", "\nend"), ("while x do\n", "\nend"), ("function f()\n", "\nend"), ("repeat\n", "\nuntil x")];
+    for (wi, (open, close)) in WRAPS.iter().enumerate() {
+        for (si, st) in STMTS.iter().enumerate() {
+            for d in [limit - 2, limit - 1, limit, limit + 1, limit + 2] {
+                if !thorough && wi > 0 && (si + d) % 3 != wi % 3 { continue; }
+                out.push(format!("{}{st}\n{st}{}\n{st}\n", open.repeat(d), close.repeat(d)));
+            }
+        }
+    }
     for kind in 0..5 {
         for d in [1usize, limit / 2, limit - 2, limit - 1, limit, limit + 1, limit + 2, 2 * limit] {
             for blocks in [0usize, 1, limit / 2, limit - 2, limit - 1, limit] {
@@ -644,6 +661,10 @@ pub fn run(args: &Args, report: &mut Report) {
                 } else if *tie_this {
                     tie_cases.push((t.clone(), level, doc));
                 }
+            }
+            crate::c02::Outcome::Skipped => {
+                report.evaluations -= 1;
+                report.count("skipped_after_failure_allowance");
             }
             other => {
                 report.count("parser_did_not_return");
